@@ -202,48 +202,7 @@ func runC10(c *core.Ctx) {
 		})
 	}
 
-	// (4) sender loop critical section ---------------------------------------------------------------------
-	if f := c.MustFunc(srv + ".(*UpdateSender).sender"); f != nil {
-		g := p.CFG(f)
-		gi := p.Func(srv + ".(*UpdateSender)._getUpdateInformation")
-		isRead := callNode(f, func(o *types.Func) bool { return gi != nil && o == gi.Obj })
-		isUnlock := func(n ast.Node) bool {
-			return core.NodeHas(n, func(x ast.Node) bool {
-				cl, ok := x.(*ast.CallExpr)
-				if !ok {
-					return false
-				}
-				op, ok := core.LockOpOf(f, cl)
-				return ok && !op.Acquire && op.Class.Name() == "toSendMu"
-			})
-		}
-		isDelete := func(n ast.Node) bool {
-			return core.NodeHas(n, func(x ast.Node) bool {
-				cl, ok := x.(*ast.CallExpr)
-				if !ok {
-					return false
-				}
-				id, ok := cl.Fun.(*ast.Ident)
-				return ok && id.Name == "delete" && len(cl.Args) == 2 && core.FieldOf(f.Pkg, cl.Args[0]) == toSend
-			})
-		}
-		// from the read, the unlock must not be reachable without passing the delete
-		bad, started := core.PathAvoidingFromS(g, isRead, isDelete, isUnlock)
-		c.Check(started && len(bad) == 0, "entry-taken-in-one-critical-section", f.Name(), f.Decl.Pos(),
-			"the sender releases the queue lock between reading an entry and deleting it: a prefix appended to that entry while the UPDATE is being written is deleted with it and never announced")
-	}
-	if f := c.MustFunc(srv + ".(*UpdateSender)._flush"); f != nil {
-		n := 0
-		ast.Inspect(f.Decl.Body, func(x ast.Node) bool {
-			if cl, ok := x.(*ast.CallExpr); ok {
-				if id, ok := cl.Fun.(*ast.Ident); ok && id.Name == "delete" && len(cl.Args) == 2 && core.FieldOf(f.Pkg, cl.Args[0]) == toSend {
-					n++
-				}
-			}
-			return true
-		})
-		c.Check(n == 1, "entry-taken-in-one-critical-section", f.Name()+" deletes what it sends", f.Decl.Pos(), "_flush does not delete the entries it sends")
-	}
+	senderEntryCriticalSection(c)
 
 	// (5) AddPath queues
 	if f := c.MustFunc(srv + ".(*UpdateSender).AddPath"); f != nil {
@@ -415,4 +374,55 @@ func dequeueStoresResult(c *core.Ctx) {
 	}
 	c.Check(len(rets) == 0 && !implicit, rule, f.Name()+" stores the filtered prefix list (or deletes the entry) on every path", pos,
 		"_dequeue can return after filtering without assigning the filtered list to the queue entry: the entry keeps its old length, so the cancelled prefix survives as a stale tail element and is announced at the next flush although its withdrawal was already written — the peer keeps a route the Adj-RIB-Out dropped")
+}
+
+// senderEntryCriticalSection: the sender loop reads a queue entry and deletes it inside one critical section of the
+// queue lock; otherwise a prefix appended to the entry while its UPDATE is written is deleted unsent.  Shared by C10
+// (announce/withdraw ordering) and C18 (every queued prefix is sent).
+func senderEntryCriticalSection(c *core.Ctx) {
+	p := c.P
+	toSend := p.Field(srv, "UpdateSender", "toSend")
+	// (4) sender loop critical section ---------------------------------------------------------------------
+	if f := c.MustFunc(srv + ".(*UpdateSender).sender"); f != nil {
+		g := p.CFG(f)
+		gi := p.Func(srv + ".(*UpdateSender)._getUpdateInformation")
+		isRead := callNode(f, func(o *types.Func) bool { return gi != nil && o == gi.Obj })
+		isUnlock := func(n ast.Node) bool {
+			return core.NodeHas(n, func(x ast.Node) bool {
+				cl, ok := x.(*ast.CallExpr)
+				if !ok {
+					return false
+				}
+				op, ok := core.LockOpOf(f, cl)
+				return ok && !op.Acquire && op.Class.Name() == "toSendMu"
+			})
+		}
+		isDelete := func(n ast.Node) bool {
+			return core.NodeHas(n, func(x ast.Node) bool {
+				cl, ok := x.(*ast.CallExpr)
+				if !ok {
+					return false
+				}
+				id, ok := cl.Fun.(*ast.Ident)
+				return ok && id.Name == "delete" && len(cl.Args) == 2 && core.FieldOf(f.Pkg, cl.Args[0]) == toSend
+			})
+		}
+		// from the read, the unlock must not be reachable without passing the delete
+		bad, started := core.PathAvoidingFromS(g, isRead, isDelete, isUnlock)
+		c.Check(started && len(bad) == 0, "entry-taken-in-one-critical-section", f.Name(), f.Decl.Pos(),
+			"the sender releases the queue lock between reading an entry and deleting it: a prefix appended to that entry while the UPDATE is being written is deleted with it and never announced")
+	}
+	if f := c.MustFunc(srv + ".(*UpdateSender)._flush"); f != nil {
+		n := 0
+		ast.Inspect(f.Decl.Body, func(x ast.Node) bool {
+			if cl, ok := x.(*ast.CallExpr); ok {
+				if id, ok := cl.Fun.(*ast.Ident); ok && id.Name == "delete" && len(cl.Args) == 2 && core.FieldOf(f.Pkg, cl.Args[0]) == toSend {
+					n++
+				}
+			}
+			return true
+		})
+		c.Check(n == 1, "entry-taken-in-one-critical-section", f.Name()+" deletes what it sends", f.Decl.Pos(), "_flush does not delete the entries it sends")
+	}
+
 }
